@@ -47,6 +47,12 @@ EncAttr(a, asn4, forceExt) ==
 EncAttrs(as, asn4, forceExt) == Flatten([i \in 1..Len(as) |-> EncAttr(as[i], asn4, forceExt)])
 EncPfx(ps, dirty, pathids) ==
    Flatten([i \in 1..Len(ps) |-> (IF pathids THEN <<0, 0, 0, i>> ELSE <<>>) \o (IF dirty THEN EncPrefixDirty(ps[i]) ELSE EncPrefix(ps[i]))])
+\* prefixes with explicit add-path identifiers (RFC 7911): ids[i] = 4 octets
+EncPfxIds(ps, ids) == Flatten([i \in 1..Len(ps) |-> ids[i] \o EncPrefix(ps[i])])
+EncUpdateAddPath(u, asn4, wids, nids) ==
+   LET w == EncPfxIds(u.wd, wids)
+       a == EncAttrs(u.attrs, asn4, FALSE)
+   IN Message(2, U16(Len(w)) \o w \o U16(Len(a)) \o a \o EncPfxIds(u.nlri, nids))
 \* var: [ext: extended length on every attribute, dirty: non-zero trailing prefix bits, pathids: add-path identifiers]
 Canon == [ext |-> FALSE, dirty |-> FALSE, pathids |-> FALSE]
 EncUpdateBody(u, asn4, var) ==
@@ -94,6 +100,25 @@ WfUpdateWith(m, asn4, valueCheck(_, _, _)) ==
             /\ WfAttrBlock(SubSeq(b, 5 + wl, 4 + wl + al), asn4, valueCheck)
             /\ WfPrefixList(Drop(b, 4 + wl + al), 32)
 WfUpdate(m, asn4) == WfUpdateWith(m, asn4, WfAttrVal)
+\* the same with add-path: every prefix is preceded by a 4-octet path identifier
+RECURSIVE WfPrefixListAP(_)
+WfPrefixListAP(b) ==
+   IF b = <<>> THEN TRUE
+   ELSE /\ Len(b) >= 5 /\ b[5] <= 32 /\ Len(b) >= 5 + POctets(b[5]) /\ WfPrefixListAP(Drop(b, 5 + POctets(b[5])))
+RECURSIVE SplitPrefixesAP(_)
+SplitPrefixesAP(b) == IF b = <<>> THEN <<>> ELSE <<<<SubSeq(b, 1, 4), b[5], SubSeq(b, 6, 5 + POctets(b[5]))>>>> \o SplitPrefixesAP(Drop(b, 5 + POctets(b[5])))
+WfUpdateAP(m, asn4) ==
+   /\ Len(m) >= 23 /\ Len(m) <= 4096 /\ Take(m, 16) = Marker /\ N16(m, 17) = Len(m) /\ m[19] = 2
+   /\ LET b == Drop(m, 19)  wl == N16(b, 1) IN
+      /\ Len(b) >= 4 + wl
+      /\ LET al == N16(b, 3 + wl) IN
+         /\ Len(b) >= 4 + wl + al
+         /\ WfPrefixListAP(SubSeq(b, 3, 2 + wl))
+         /\ WfAttrBlock(SubSeq(b, 5 + wl, 4 + wl + al), asn4, WfAttrVal)
+         /\ WfPrefixListAP(Drop(b, 4 + wl + al))
+NormUpdateAP(m) ==
+   LET b == Drop(m, 19)  wl == N16(b, 1)  al == N16(b, 3 + wl) IN
+   [wd |-> SplitPrefixesAP(SubSeq(b, 3, 2 + wl)), nlri |-> SplitPrefixesAP(Drop(b, 4 + wl + al))]
 
 
 Pow2(n) == IF n = 0 THEN 1 ELSE CASE n = 1 -> 2 [] n = 2 -> 4 [] n = 3 -> 8 [] n = 4 -> 16 [] n = 5 -> 32 [] n = 6 -> 64 [] n = 7 -> 128 [] n = 8 -> 256
@@ -142,6 +167,11 @@ AsPaths(asn4) ==
    \cup {<<Seg(2, <<<<0, 65001>>>>), Seg(1, <<<<0, 3>>, <<0, 4>>>>)>>, <<Seg(2, <<<<0, 1>>>>), Seg(2, <<<<0, 2>>>>)>>,
          <<Seg(3, <<<<0, 65010>>>>), Seg(4, <<<<0, 65011>>>>), Seg(2, <<<<0, 7>>>>)>>}
    \cup {<<Seg(2, LongAs(n))>> : n \in (IF asn4 THEN {62, 63, 64} ELSE {125, 126, 127, 128})}
+   \* several segments whose total crosses the 255-octet boundary although no single segment does, and the reverse
+   \cup (IF asn4 THEN {<<Seg(2, LongAs(60)), Seg(1, LongAs(5))>>, <<Seg(3, LongAs(40)), Seg(2, LongAs(40))>>, <<Seg(1, LongAs(2)), Seg(2, LongAs(64))>>,
+                       <<Seg(2, LongAs(31)), Seg(2, LongAs(31))>>, <<Seg(2, LongAs(31)), Seg(1, LongAs(32))>>}
+          ELSE {<<Seg(3, LongAs(100)), Seg(2, LongAs(100))>>, <<Seg(2, LongAs(125)), Seg(1, LongAs(1))>>, <<Seg(1, LongAs(1)), Seg(2, LongAs(127))>>,
+                <<Seg(2, LongAs(62)), Seg(2, LongAs(63))>>, <<Seg(2, LongAs(63)), Seg(4, LongAs(63))>>})
 \* every well-known community the decoder names (IANA registry), plus reserved-range neighbours
 WellKnownComm == {<<65535, x>> : x \in {0, 1, 2, 3, 4, 5, 6, 666, 65281, 65282, 65283, 65284, 65285, 65535}} \cup {<<0, 0>>}
 Comms == {<<c>> : c \in WellKnownComm \cup {<<0, 1>>, <<100, 200>>, <<65000, 65535>>, <<1, 0>>}}
@@ -186,6 +216,13 @@ Updates(asn4) ==
    \cup {Upd(<<>>, AllOpt(asn4), N1), Upd(<<P6[1]>>, AllOpt(asn4), <<P6[1], P6[5]>>)}      \* all together
 NoDupKinds(u) == \A i, j \in 1..Len(u.attrs) : i # j => u.attrs[i][1] # u.attrs[j][1]
 UpdatePool(asn4) == {u \in Updates(asn4) : NoDupKinds(u)}
+
+\* add-path vectors: one to three prefixes with identifiers from the boundary pool
+PathIds == {<<0, 0, 0, 0>>, <<0, 0, 0, 1>>, <<0, 1, 0, 0>>, <<255, 255, 255, 255>>}
+AddPathVecs ==
+   {[u |-> Upd(<<>>, Base(TRUE), <<P6[i]>>), wids |-> <<>>, nids |-> <<a>>] : i \in 1..6, a \in PathIds}
+   \cup {[u |-> Upd(<<P6[i]>>, <<>>, <<>>), wids |-> <<a>>, nids |-> <<>>] : i \in 1..6, a \in PathIds}
+   \cup {[u |-> Upd(<<P6[i]>>, Base(TRUE), <<P6[j], P6[5]>>), wids |-> <<a>>, nids |-> <<b, a>>] : i, j \in {1, 4, 5}, a, b \in PathIds}
 
 (***************************** C09: legal variants and corruptions *********)
 Variants == {[ext |-> e, dirty |-> d, pathids |-> p] : e, d, p \in BOOLEAN}
